@@ -388,6 +388,11 @@ func run(c *core.Case) {
 		probeLimit(c, r)
 		return
 	}
+	// one case in 40: several decoders in one process (see group.go)
+	if r.Intn(40) == 0 {
+		groupCase(c, r)
+		return
+	}
 	doc, class := genDoc(r)
 	checkDoc(c, doc, class, r)
 }
@@ -418,7 +423,8 @@ func Prop() *core.Prop {
 	return &core.Prop{
 		ID:    "C17",
 		Level: core.Exploration,
-		Rule:  "documents are PRNG byte strings: directive-alphabet soup with per-document densities (0-400 bytes, 1% of 4000-4300 bytes straddling bufio's 4096-byte start buffer), structured documents (nested spans, pre spans holding directives, quotes of depth 1-3 with varying prefixes and depth changes, pre blocks with info strings / unterminated / inside quotes, Unicode spaces, invalid UTF-8), byte-level mutations of those, 3% documents of more than 64 KiB made of short non-blank lines (an optional preamble, then a head - two thirds a byte sequence that utf8.DecodeRune reports as (RuneError,1), or a control rune, placed right after a block-quote prefix of depth 1-3, after an opening or closing span directive, or at a fence boundary; one third a small soup/structured/mutated document - then 64-72 KiB of short lines), 2% documents with a line of 2-60 KiB, and one case in 1000 with a line of 64 KiB or more (limit probe). Each document is decoded whole, byte-by-byte, in 6 PRNG chunkings (a few cuts, pieces of 1-3 bytes, pieces of 1-8 bytes) and 2 deliveries whose last piece arrives together with io.EOF (documents over 4500 bytes: whole, 3 chunkings with pieces of 200-6200 bytes, 2 EOF-carrying); every delivery is checked for the Next-call bound 4*len+16, panics, losslessness and equality of the (data, mask, quote depth, info) sequence with the reference delivery, every distinct sequence for the bracket discipline; styling.Scan() runs on a default bufio.Scanner under 5 of the deliveries (never on the limit probe). A case is non-trivial when some token carries a style bit; distinct = distinct documents among those.",
+		Race:  true,
+		Rule:  "documents are PRNG byte strings: directive-alphabet soup with per-document densities (0-400 bytes, 1% of 4000-4300 bytes straddling bufio's 4096-byte start buffer), structured documents (nested spans, pre spans holding directives, quotes of depth 1-3 with varying prefixes and depth changes, pre blocks with info strings / unterminated / inside quotes, Unicode spaces, invalid UTF-8), byte-level mutations of those, 3% documents of more than 64 KiB made of short non-blank lines (an optional preamble, then a head - two thirds a byte sequence that utf8.DecodeRune reports as (RuneError,1), or a control rune, placed right after a block-quote prefix of depth 1-3, after an opening or closing span directive, or at a fence boundary; one third a small soup/structured/mutated document - then 64-72 KiB of short lines), 2% documents with a line of 2-60 KiB, and one case in 1000 with a line of 64 KiB or more (limit probe). Each document is decoded whole, byte-by-byte, in 6 PRNG chunkings (a few cuts, pieces of 1-3 bytes, pieces of 1-8 bytes) and 2 deliveries whose last piece arrives together with io.EOF (documents over 4500 bytes: whole, 3 chunkings with pieces of 200-6200 bytes, 2 EOF-carrying); every delivery is checked for the Next-call bound 4*len+16, panics, losslessness and equality of the (data, mask, quote depth, info) sequence with the reference delivery, every distinct sequence for the bracket discipline; styling.Scan() runs on a default bufio.Scanner under 5 of the deliveries (never on the limit probe). One case in 40 is a group of 3-6 documents (group.go): each decoded alone, then a decoder read to the end and called again, then one decoder per document alive at once and advanced in PRNG turns on one goroutine, then one goroutine per document decoding concurrently (all children run under the race detector); every sequence must equal the document's own. A case is non-trivial when some token carries a style bit; distinct = distinct documents among those.",
 		Assumptions: []string{
 			"a reader may return its last bytes together with io.EOF (io.Reader permits it; the package's own TestEOFPre uses such a reader); divergences that need this are keyed chunk:styling:eof-with-data:*",
 			"Style() and Quote() are read right after Token(), as the package's tests do",
@@ -428,7 +434,7 @@ func Prop() *core.Prop {
 		},
 		Cases: func(tier string) int {
 			if tier == "thorough" {
-				return 3000000
+				return 1500000 // (all children run under the race detector since the group cases were added)
 			}
 			return 30000
 		},
@@ -441,6 +447,7 @@ func Prop() *core.Prop {
 			"documents_with_invalid_utf8", "documents_with_line_over_32k", "limit_probes",
 			"documents_over_64k_with_short_lines", "hostile_rune_at_quote-prefix_then_64k", "hostile_rune_at_span-start_then_64k",
 			"hostile_rune_at_span-end_then_64k", "hostile_rune_at_fence_then_64k",
+			"group_cases", "group_spent_decoders", "group_interleaved_decoders_compared", "group_concurrent_decoders_compared",
 		},
 	}
 }
